@@ -191,6 +191,8 @@ func Expr(d *Desc, bytesOf func(*Desc) []byte) string {
 	case "imin":
 		max := map[string]string{"i8": "127", "i16": "32767", "i32": "2147483647", "i64": "9223372036854775807"}[d.SF]
 		return "(-" + max + d.SF + " - 1" + d.SF + ")"
+	case "rgx":
+		return "%/" + d.Lit + "/" + d.SF
 	case "lit":
 		return d.Name
 	case "rng":
@@ -223,7 +225,7 @@ func Expr(d *Desc, bytesOf func(*Desc) []byte) string {
 		case "set":
 			return "^[" + body + "]"
 		case "map":
-			return "{" + body + "}"
+			return "({" + body + "})"
 		case "record":
 			return "%{" + body + "}"
 		}
